@@ -118,7 +118,15 @@ pub fn check(c: &c01::Case) -> Verdict {
     }
     let opts = c01::opts_of(c, &bt, &t);
     let mut w = make_writer(t.pid, &opts);
-    let mut dest = Dest::new(vec![], 0).with_snapshots();
+    // the destination may already hold (longer) content: an old dump being overwritten, a slot in a
+    // container file.  Derived from the case so that replay is deterministic.
+    let (prefill, p0): (Vec<u8>, u64) = match fp_json(c) % 3 {
+        0 => (vec![], 0),
+        1 => (vec![0xEE; 400 << 10], 0),
+        _ => (vec![0xEE; 400 << 10], 4096),
+    };
+    let prefilled = !prefill.is_empty();
+    let mut dest = Dest::new(prefill.clone(), p0).with_snapshots();
     let out = run_dump(&mut w, &mut dest);
     match &out {
         DumpOutcome::Panic(loc, msg) => return panic_verdict(loc, msg),
@@ -128,7 +136,16 @@ pub fn check(c: &c01::Case) -> Verdict {
     let snaps = inner.snapshots.as_ref().unwrap();
     let writes: Vec<&DestOp> = inner.log.iter().filter(|o| matches!(o, DestOp::Write { .. })).collect();
     let mut mid_flush = 0u64;
+    let mut far = p0;
     for (k, snap) in snaps.iter().enumerate() {
+        // what has reached the destination so far: from the starting position up to the furthest byte written
+        if let Some(DestOp::Write { at, len }) = writes.get(k) {
+            far = far.max(at + len);
+            if *at < p0 {
+                return Verdict::viol("C10:prefix:write-before-start", format!("write #{k} at {at} lies before the starting position {p0}"));
+            }
+        }
+        let snap = &snap[(p0 as usize).min(snap.len())..(far as usize).min(snap.len())];
         if let Some(p) = snapshot_problem(snap) {
             return Verdict::viol(
                 format!("C10:prefix:{}", p.sig),
@@ -137,7 +154,7 @@ pub fn check(c: &c01::Case) -> Verdict {
         }
         // a 12-byte write into the directory = entry emitted; the next write appends stream bytes
         if let Some(DestOp::Write { len: 12, at }) = writes.get(k) {
-            if *at < 32 + 18 * 12 {
+            if *at < p0 + 32 + 18 * 12 {
                 mid_flush += 1;
             }
         }
@@ -175,6 +192,9 @@ pub fn check(c: &c01::Case) -> Verdict {
         }
     }
     let mut classes = vec![format!("writes:{}", n_snaps / 10 * 10)];
+    if prefilled {
+        classes.push(format!("destination-with-longer-existing-content:p0={p0}"));
+    }
     if !ok {
         classes.push("dump-error".into());
     }
@@ -191,7 +211,7 @@ pub fn run(ctx: &mut LaneCtx) {
         SubSpec {
             name: "prefix-snapshots",
             cases: (128, 6_000),
-            rule: "generated scenarios (as C01, up to 6 extra threads) dumped into a recording destination; EVERY write boundary of each scenario is decoded in truncation mode and an I/O error is injected at EVERY destination call in turn (exhaustive per scenario); non-trivial = scenario has boundaries between the append of a stream and the write of its directory entry; distinct = hash of scenario",
+            rule: "generated scenarios (as C01, up to 6 extra threads) dumped into a recording destination (empty, or holding 400 KiB of older content that is overwritten from position 0 or 4096); EVERY write boundary of each scenario is decoded in truncation mode and an I/O error is injected at EVERY destination call in turn (exhaustive per scenario); non-trivial = scenario has boundaries between the append of a stream and the write of its directory entry; distinct = hash of scenario",
             strategy: c01::case_strategy(7).boxed(),
             max_shrink_iters: 100,
             log_current: true,
